@@ -434,28 +434,11 @@ pub fn run(rep: &mut Report) {
     let t = std::time::Instant::now();
     let mut names: Vec<(&str, bool)> = C37_PROGRAMS.iter().map(|n| (*n, true)).collect();
     names.extend(C37_DFS_ONLY.iter().map(|n| (*n, false)));
-    let s = par_map(names.len(), ncpu().min(6), |i| {
-        let (name, with_expected) = names[i];
-        let n = prog_n(name, thorough);
-        match crate::jobs::spawn_job(&json!({"job": "c37prog", "program": name, "n": n, "with_expected": with_expected})) {
-            Ok(r) => {
-                for l in r.lines {
-                    println!("{l}");
-                }
-                r.stats
-            }
-            Err(crash) => {
-                let mut st = Stats::new();
-                st.eval();
-                st.violation(
-                    format!("C37/prog/{name}/simulator-crash"),
-                    format!("program {name}: the process running exhaustive() died: {crash}"),
-                    json!({"section": "programs", "program": name, "n": n}),
-                );
-                st
-            }
-        }
-    });
+    let specs: Vec<Value> = names.iter().map(|(n, w)| json!({"program": n, "n": prog_n(n, thorough), "with_expected": w})).collect();
+    let (s, lines) = crate::jobs::run_programs("c37prog", &specs, "C37/prog");
+    for l in lines {
+        println!("{l}");
+    }
     println!("  program level: {} programs, {:.1}s", s.evaluations, t.elapsed().as_secs_f64());
     rep.section("program_level", s);
 }
@@ -485,6 +468,7 @@ pub fn replay(case: &Value) -> bool {
                 println!("replay: decision vector {choices:?} produces {:?} ({:?})", run.obs, run.verdict);
             }
         }
+        "crash" => return crate::jobs::replay_crash(case),
         other => {
             println!("unknown replay section {other}");
             return false;
